@@ -719,6 +719,10 @@ class SimKernel:
         elif kind == "file_del":
             self.del_file(ev["path"])
             self.bump()
+        elif kind == "ncpu_online":
+            # CPU hot-plug / vCPUs added or removed
+            self.ncpu_online = ev["n"]
+            self.bump()
         elif kind == "fork_self":
             # the program under test fork()s and goes on in the child: same
             # psutil module state, another PID; the old PID is now an
